@@ -323,6 +323,14 @@ pub struct Buffer<T> {
 impl<T> Buffer<T> {
     /// Create a new Buffer.
     pub fn new(size: usize) -> Result<Self> {
+        let member_size = std::mem::size_of::<T>();
+        if member_size == 0 || size % member_size != 0 {
+            // The two halves of the mapping only alias sample for sample if
+            // the sample size divides the buffer size.
+            return Err(Error::msg(format!(
+                "circular buffer size {size} is not a multiple of the sample size {member_size}"
+            )));
+        }
         Ok(Self {
             state: Arc::new((
                 Mutex::new(BufferState {
